@@ -69,6 +69,15 @@ def gen_cases(rng, tier):
                     t = rng.pick(['R', 'S', 'new', names[0]])
                 if p not in [a for a, _ in m]:
                     m.append([p, t])
+            if rng.chance(0.25):
+                # a chain: the target of an earlier entry is matched by a later one (each field is renamed once, by
+                # the first entry that matches its own name)
+                n0 = rng.pick(names)
+                m = [[re.escape(n0), 'mid1'], [r'mid(\d)', r'end\1']] if regex else [[n0, 'mid1'], ['mid1', 'end1']]
+                if rng.chance(0.5):
+                    m.append([rng.pick(names), 'R'] if not regex else [rng.pick(PATS), 'R'])
+                    if m[-1][0] in (m[0][0], m[1][0]):
+                        m.pop()
             c['map'] = m
         elif k == 'computed':
             fs = []
@@ -106,8 +115,11 @@ def gen_cases(rng, tier):
             for _ in range(rng.randint(1, 2)):
                 pats = []
                 for _ in range(rng.randint(0, 2)):
-                    f = rng.pick(['x', 'y+', r'(\w)\s(\w)', 'None', r'\d', '^', 'a|b'])
-                    r_ = rng.pick(['Z', '', r'\1' if re.compile(f).groups else 'q', '[&]'])
+                    f = rng.pick(['x', 'y+', r'(\w)\s(\w)', 'None', r'\d', '^', 'a|b', r'(?P<p>\w)\s(?P<q>\w)'])
+                    g = re.compile(f)
+                    # the replacement is a template of re.sub: numbered, \g<number> and \g<name> references, escapes
+                    r_ = rng.pick(['Z', '', r'\1' if g.groups else 'q', '[&]', r'\g<1>;' if g.groups else r'<\g<0>>',
+                                   r'\g<q>-\g<p>' if g.groupindex else r'\g<0>\g<0>', r'a\tb', r'\\'])
                     pats.append([f, r_])
                 fs.append({'name': rng.pick(names + (['zz'] if rng.chance(0.05) else [])), 'patterns': pats})
             c['fields'] = fs
